@@ -38,7 +38,9 @@ TRUSTED = [
     "the code by histories of 2-4 calls (run_statistics / prescribed run / unconstrained run / density-matrix run, mixed order, "
     "different states and registers) made on ONE CircuitSimulator object, each call compared with the model and the oracle as "
     "for a fresh object; when the patched random choice is not consumed the harness decides from 16 real samples whether the "
-    "run samples the branches at all",
+    "run samples the branches at all; likewise nothing is remembered from CONSTRUCTION time: histories in which the circuit "
+    "object is edited (add_gate / add_measurement) after the simulator objects were made and between two runs of one simulator "
+    "(state-vector and density-matrix), every run compared with the model and the oracle on the circuit as it is at run time",
     "gate kinds the simulator special-cases are all generated on every path (run_statistics, prescribed, unconstrained, density "
     "matrix; before/between/after measurements; under classical control): GLOBALPHASE (0, +-pi/2, pi, 2pi, atan2(4,3)), user gates "
     "as operator / 0-argument / 1-argument function, TOFFOLI, FREDKIN, ControlledGate(X) with every control value, RX/RY/RZ(pi), "
@@ -362,6 +364,33 @@ def reads_written_bit(inp):
 # --------------------------------------------------------------------------------------------------
 # the real implementation
 # --------------------------------------------------------------------------------------------------
+def add_op(qc, o):
+    """append one operation of an input to a (possibly already simulated) QubitCircuit"""
+    if "m" in o:
+        qc.add_measurement("M", targets=[o["m"]], classical_store=o["store"])
+        return
+    _, _, nc, nt = GATES[o["g"]]
+    kw = {}
+    if nc:
+        kw["controls"] = list(o["q"][:nc])
+    if nt:
+        kw["targets"] = list(o["q"][nc:])
+    if o.get("cc") is not None:
+        kw["classical_controls"] = list(o["cc"])
+        if o.get("cv") is not None:
+            kw["classical_control_value"] = o["cv"]
+    name = o["g"]
+    if name.startswith("MCX_"):
+        from qutip_qip.operations.gateclass import ControlledGate, X as XGate
+        qc.add_gate(ControlledGate(control_value=int(name[4:]), target_gate=XGate, **kw))
+        return
+    if name in PYGATE:
+        name, arg = PYGATE[name]
+        if arg is not None:
+            kw["arg_value"] = arg
+    qc.add_gate(name, **kw)
+
+
 def build(inp):
     from qutip import Qobj
     from qutip_qip.circuit import QubitCircuit
@@ -375,29 +404,7 @@ def build(inp):
 
     qc.user_gates = {"R345": Qobj(gate_matrix("R345")), "UF0": uf0, "UF1": uf1}
     for o in inp["ops"]:
-        if "m" in o:
-            qc.add_measurement("M", targets=[o["m"]], classical_store=o["store"])
-        else:
-            _, _, nc, nt = GATES[o["g"]]
-            kw = {}
-            if nc:
-                kw["controls"] = list(o["q"][:nc])
-            if nt:
-                kw["targets"] = list(o["q"][nc:])
-            if o.get("cc") is not None:
-                kw["classical_controls"] = list(o["cc"])
-                if o.get("cv") is not None:
-                    kw["classical_control_value"] = o["cv"]
-            name = o["g"]
-            if name.startswith("MCX_"):
-                from qutip_qip.operations.gateclass import ControlledGate, X as XGate
-                qc.add_gate(ControlledGate(control_value=int(name[4:]), target_gate=XGate, **kw))
-                continue
-            if name in PYGATE:
-                name, arg = PYGATE[name]
-                if arg is not None:
-                    kw["arg_value"] = arg
-            qc.add_gate(name, **kw)
+        add_op(qc, o)
     v = np.array([complex(a, b) for a, b in inp["ket"]])
     v = v / np.linalg.norm(v)
     ket = Qobj(v.reshape(-1, 1), dims=[[2] * n, [1] * n])
@@ -498,26 +505,108 @@ IN_KEYS = ("n", "ncb", "ops") + CALL_KEYS
 
 
 def sub_inputs(h):
-    """the calls of a history as ordinary single-call inputs (the model's answer does not depend on history)"""
+    """the calls of a history as ordinary single-call inputs (the model's answer does not depend on history).
+    A call with "upto" is made when the circuit object holds only the first `upto` operations (the circuit is
+    EDITED between constructing the simulator and running it / between two runs): its single-call input is the
+    circuit as it is at run time"""
     out = []
     for c in h["calls"]:
-        x = {"n": h["n"], "ncb": h["ncb"], "ops": h["ops"]}
+        ops = h["ops"] if c.get("upto") is None else h["ops"][:c["upto"]]
+        x = {"n": h["n"], "ncb": h["ncb"], "ops": ops}
         for k in CALL_KEYS:
             x[k] = c.get(k, {"mres": None, "orc": [], "dm_from_ket": True}.get(k))
         out.append(x)
     return out
 
 
+class LiveHistory:
+    """ONE circuit object and ONE simulator object per mode of operation.  The simulators are constructed when the
+    circuit holds h["built"] operations (default: all); before call k the circuit is grown to calls[k]["upto"]
+    operations with the public add_gate / add_measurement"""
+
+    def __init__(self, h):
+        from qutip_qip.circuit import CircuitSimulator
+        self.h = h
+        self.have = len(h["ops"]) if h.get("built") is None else h["built"]
+        self.qc, _ = build({"n": h["n"], "ncb": h["ncb"], "ops": h["ops"][:self.have], "ket": [[1, 0]] * 2 ** h["n"]})
+        self.shared = {"sv": CircuitSimulator(self.qc), "dm": CircuitSimulator(self.qc, mode="density_matrix_simulator")}
+
+    def advance(self, k):
+        upto = self.h["calls"][k].get("upto")
+        upto = len(self.h["ops"]) if upto is None else upto
+        for o in self.h["ops"][self.have:upto]:
+            add_op(self.qc, o)
+        self.have = max(self.have, upto)
+
+
 def run_history(h):
     """real outputs of every call, all made on the SAME simulator objects (one per mode of operation)"""
-    from qutip_qip.circuit import CircuitSimulator
     subs = sub_inputs(h)
     try:
-        qc, _ = build(subs[0])
-        shared = {"sv": CircuitSimulator(qc), "dm": CircuitSimulator(qc, mode="density_matrix_simulator")}
+        live = LiveHistory(h)
     except Exception as e:
         return [{"rejected": True, "exc": type(e).__name__} for _ in subs]
-    return [call_real(x, qc=qc, shared=shared) for x in subs]
+    out = []
+    for k, x in enumerate(subs):
+        try:
+            live.advance(k)
+        except Exception as e:
+            out.append({"rejected": True, "exc": type(e).__name__ + ": " + str(e)[:100]})
+            continue
+        out.append(call_real(x, qc=live.qc, shared=live.shared))
+    return out
+
+
+def gen_edit_history(rng, nmax=3):
+    """a history in which the circuit object is edited (gates / measurements appended) AFTER the simulator objects
+    were constructed and between two runs of one simulator; every run is compared with the model / oracle on the
+    circuit as it is at run time.  The appended part preferably holds what makes the circuit a feedback circuit
+    (its first storing measurement and/or its first classically controlled gate)"""
+    for _ in range(60):
+        h = gen_history(rng, nmax=nmax)
+        ops = h["ops"]
+        if h["ncb"] and rng.random() < 0.7:
+            # make sure a gate reads a bit stored earlier
+            b = rng.randrange(h["ncb"])
+            q = rng.randrange(h["n"])
+            ops = ops + [{"m": q, "store": b}] if not any("m" in o and o["store"] == b for o in ops) else ops
+            ops = ops + [{"g": rng.choice(["X", "SNOT", "R345", "Y"]), "q": [rng.randrange(h["n"])], "cc": [b], "cv": rng.choice([1, 1, 0, None])}]
+            if rng.random() < 0.4:
+                ops = ops + [rand_op(rng, h["n"], h["ncb"], 0.3)]
+        if sum(1 for o in ops if "m" in o) > 4 or len(ops) < 2:
+            continue
+        h["ops"] = ops
+        L = len(ops)
+        first_cc = next((i for i, o in enumerate(ops) if "g" in o and o.get("cc")), L)
+        first_st = next((i for i, o in enumerate(ops) if "m" in o and o.get("store") is not None), L)
+        r = rng.random()
+        if r < 0.35:
+            built = rng.randint(0, min(first_cc, L - 1))            # simulator made before the first conditioned gate
+        elif r < 0.55:
+            built = rng.randint(0, min(first_st, L - 1))            # ... before the first storing measurement
+        elif r < 0.65:
+            built = 0
+        else:
+            built = rng.randint(0, L - 1)
+        h["built"] = built
+        ncalls = len(h["calls"])
+        style = rng.random()
+        if style < 0.45:
+            cuts = [L] * ncalls                                     # all edits before the first run
+        else:
+            cuts = sorted(rng.randint(built, L) for _ in range(ncalls))
+            cuts[-1] = L
+            if style < 0.7 and ncalls >= 2:
+                cuts[0] = built                                     # first run on the circuit the simulator was made for
+        for c, u in zip(h["calls"], cuts):
+            c["upto"] = u
+            if rng.random() < 0.45:
+                c["mode"] = "dm"
+            m = sum(1 for o in ops[:u] if "m" in o)
+            c["mres"] = [rng.randint(0, 1) for _ in range(m)] if c["mode"] == "run" else None
+            c["orc"] = [rng.randint(0, 1) for _ in range(m)] if c["mode"] == "rand" else []
+        return h
+    raise RuntimeError("gen_edit_history")
 
 
 def gen_history(rng, nmax=3):
@@ -576,9 +665,12 @@ def samples_deterministic(top, k, runs=16):
     for t in range(runs):
         np.random.seed(1000 + t)
         try:
-            qc, _ = build(subs[0])
-            shared = {"sv": CircuitSimulator(qc), "dm": CircuitSimulator(qc, mode="density_matrix_simulator")} if "calls" in top else None
+            live = LiveHistory(top) if "calls" in top else None
+            qc = live.qc if live else build(subs[0])[0]
+            shared = live.shared if live else None
             for i, x in enumerate(subs):
+                if live and i <= k:
+                    live.advance(i)
                 if i < k:
                     call_real(x, qc=qc, shared=shared)
                 elif i == k:
@@ -922,8 +1014,12 @@ def exhaustive_inputs():
 
 def _clean(x):
     if "calls" in x:
-        return {"n": x["n"], "ncb": x["ncb"], "ops": x["ops"],
-                "calls": [{k: c.get(k, {"mres": None, "orc": [], "dm_from_ket": True}.get(k)) for k in CALL_KEYS} for c in x["calls"]]}
+        out = {"n": x["n"], "ncb": x["ncb"], "ops": x["ops"],
+               "calls": [dict({k: c.get(k, {"mres": None, "orc": [], "dm_from_ket": True}.get(k)) for k in CALL_KEYS},
+                              **({"upto": c["upto"]} if c.get("upto") is not None else {})) for c in x["calls"]]}
+        if x.get("built") is not None:
+            out["built"] = x["built"]
+        return out
     return {k: x[k] for k in IN_KEYS}
 
 
@@ -935,6 +1031,9 @@ def check_call(top, k, inp, real, model, notes=None):
     if "calls" in top:
         fin["call"] = k
     hist = " (call %d of a history on one simulator object)" % k if "calls" in top else ""
+    if hist and top.get("built") is not None:
+        hist = " (call %d of a history on one simulator object constructed when the circuit held %d of its operations; %d at this call)" % (
+            k, top["built"], len(inp["ops"]))
     diff = same_output(inp, real, model)
     unconsumed = inp["mode"] == "rand" and not real.get("rejected") and real.get("rand_calls") != n_meas(inp)
     if diff and unconsumed:
@@ -972,6 +1071,8 @@ def correspond(ctx):
             for where in (("before", "between", "after") if (ctx.thorough or name.startswith("GP_")) else (rng.choice(["before", "between", "after"]),)):
                 tops.append(gen_special(rng, name, md, where))
     tops += [gen_history(rng, nmax=4 if ctx.thorough else 3) for _ in range(ctx.n(140, 1200))]
+    # the circuit object is edited after the simulator objects were made / between two runs of one simulator
+    tops += [gen_edit_history(rng, nmax=4 if ctx.thorough else 3) for _ in range(ctx.n(90, 800))]
     if ctx.thorough:
         ex = exhaustive_inputs()
         rng.shuffle(ex)
@@ -996,7 +1097,7 @@ def correspond(ctx):
     for (t, k), inp, real, model in zip(owner, subs, reals, models):
         top = tops[t]
         corr.tally("mode:" + inp["mode"])
-        corr.tally("history-call" if "calls" in top else
+        corr.tally("edited-circuit-call" if top.get("built") is not None else "history-call" if "calls" in top else
                    "corpus" if t < ncorpus else ("malformed:" + top["kind"] if "kind" in top else "valid"))
         corr.tally("rejected" if real.get("rejected") else "accepted")
         for kind, fin, obs, exp, what in check_call(top, k, inp, real, model, ctx.notes):
@@ -1010,6 +1111,10 @@ def correspond(ctx):
             corr.tally("history:unconstrained-after-prescribed")
         if inp["mode"] == "dm" and reads_written_bit(inp):
             corr.tally("dm:reads-written-bit")
+        if top.get("built") is not None and len(inp["ops"]) > top["built"]:
+            corr.tally("edited:run-after-edit" + ("/dm" if inp["mode"] == "dm" else "/sv"))
+            if inp["mode"] == "dm" and reads_written_bit(inp) and not reads_written_bit(dict(inp, ops=top["ops"][:top["built"]])):
+                corr.tally("edited:dm-feedback-added-after-construction")
         if any(o.get("cc") for o in inp["ops"] if "g" in o):
             corr.tally("has-classical-control")
         for kind in sorted({("GLOBALPHASE" if o["g"].startswith("GP_") else "user-gate" if o["g"] in ("R345", "UF0") or o["g"].startswith("UF1") else
@@ -1098,6 +1203,8 @@ def search(ctx, broken):
         cands.append(gen_input(ctx.rng))
     for _ in range(200):
         cands.append(gen_history(ctx.rng))
+    for _ in range(200):
+        cands.append(gen_edit_history(ctx.rng))
     for top in cands:
         for f in _oracle_top(top):
             if classify(f) is None:
